@@ -57,14 +57,16 @@ def PoolOK (h : H) : Prop := h.bufPool.Nodup ∧ ∀ x ∈ h.bufPool, x < h.next
 /-- everything except the buffers (`mem`, `next`, `bufPool`), `tick` and `fault` -/
 def SameRest (h h' : H) : Prop :=
   h'.jsonPool = h.jsonPool ∧ h'.slicePool = h.slicePool ∧ h'.ceh = h.ceh ∧ h'.errPoolCore = h.errPoolCore ∧
-  h'.errPoolZap = h.errPoolZap ∧ h'.stackPool = h.stackPool ∧ h'.inflight = h.inflight ∧ h'.live = h.live ∧ h'.out = h.out
+  h'.errPoolZap = h.errPoolZap ∧ h'.stackPool = h.stackPool ∧ h'.inflight = h.inflight ∧ h'.live = h.live ∧ h'.out = h.out ∧
+  h'.liveMeta = h.liveMeta
 
-theorem SameRest.rfl' (h : H) : SameRest h h := ⟨rfl, rfl, rfl, rfl, rfl, rfl, rfl, rfl, rfl⟩
+theorem SameRest.rfl' (h : H) : SameRest h h := ⟨rfl, rfl, rfl, rfl, rfl, rfl, rfl, rfl, rfl, rfl⟩
 
 theorem SameRest.trans {a b c : H} (h1 : SameRest a b) (h2 : SameRest b c) : SameRest a c := by
-  obtain ⟨a1, a2, a3, a4, a5, a6, a7, a8, a9⟩ := h1
-  obtain ⟨b1, b2, b3, b4, b5, b6, b7, b8, b9⟩ := h2
-  exact ⟨b1.trans a1, b2.trans a2, b3.trans a3, b4.trans a4, b5.trans a5, b6.trans a6, b7.trans a7, b8.trans a8, b9.trans a9⟩
+  obtain ⟨a1, a2, a3, a4, a5, a6, a7, a8, a9, a10⟩ := h1
+  obtain ⟨b1, b2, b3, b4, b5, b6, b7, b8, b9, b10⟩ := h2
+  exact ⟨b1.trans a1, b2.trans a2, b3.trans a3, b4.trans a4, b5.trans a5, b6.trans a6, b7.trans a7, b8.trans a8, b9.trans a9,
+    b10.trans a10⟩
 
 structure BufGot (h : H) (b : Nat) (h' : H) : Prop where
   src : b ∈ h.bufPool ∨ b = h.next
